@@ -1,4 +1,4 @@
-(* Kernel primitives used by the K43 translation (tools/kernels/k43_discr.py): a search loop
+(* Kernel primitives used by the K109a translation (tools/kernels/k109a_discr.py): a search loop
    (`for x in seq: ... return e ...` followed by the not-found continuation), attribute lookup on a class
    object, and the classes of an MRO as objects.  Class objects are those of PyK_alias.v. *)
 From Coq Require Import List String Ascii ZArith Bool.
@@ -37,3 +37,26 @@ Definition class_of_entry (e: kv) : kv :=
   end.
 
 Definition k_mro_classes (c: kv) : kv := KTuple (map class_of_entry (cls_mro c)).
+
+(* ---- K109b: `name in cls.__dict__`, `cls.__dict__[name]`, is_dataclass_dict_mixin(cls) ---- *)
+Definition k_contains (d k: kv) : res kv :=
+  match d with
+  | KDict kvs => Ok (KBool (match d_get kvs k with Some _ => true | None => false end))
+  | _ => Raise TypeError
+  end.
+
+Definition k_dict_index (d k: kv) : res kv :=
+  match d with
+  | KDict kvs => match d_get kvs k with Some v => Ok v | None => Raise KeyError end
+  | _ => Raise TypeError
+  end.
+
+(* helpers.is_dataclass_dict_mixin: type_name(typ) == "mashumaro.mixins.dict.DataClassDictMixin"; class objects carry
+   their identity in __id__ *)
+Definition MIXIN_ID : kv := KStr "mashumaro.mixins.dict.DataClassDictMixin".
+
+Definition k_is_mixin (c: kv) : bool :=
+  match c with
+  | KNs attrs => match ns_get attrs "__id__" with Some i => kv_eqb i MIXIN_ID | None => false end
+  | _ => false
+  end.
